@@ -6,6 +6,7 @@ CONSTANTS
   InitCAs = {"N", "C"}
   MaxChg = 2
   MaxRefuse = 1
+  Combine = TRUE
 VIEW view
 INVARIANTS TypeOK AdmissionSound AdmissionComplete
 CHECK_DEADLOCK FALSE
